@@ -77,6 +77,39 @@ class Script:
             raise ValueError(r)
         return name
 
+    def flag(self, b: bool) -> str:
+        """A boolean argument: a literal, a run-time comparison, or a bool variable set up by the routing (the other
+        value of the routing is `not b`)."""
+        r = self.routing
+        b = bool(b)
+        if r == "lit":
+            return "True" if b else "False"
+        if r == "rt":
+            return f"({self._read(1 if b else 0)} > 0)"
+        self.nvar += 1
+        name = f"cf{self.nvar}"
+        L = self.lines
+        if r == "constvar":
+            L.append(f"{name} = {b!r}")
+        elif r == "after":
+            L.append(f"{name} = {b!r}")
+            self.post.append(f"{name} = {(not b)!r}")
+        elif r == "untaken":
+            L += [f"{name} = {b!r}", f"if {self._read(0)} > 0:", f"    {name} = {(not b)!r}"]
+        elif r == "taken":
+            L += [f"{name} = {(not b)!r}", f"if {self._read(1)} > 0:", f"    {name} = {b!r}"]
+        elif r == "loop2":
+            L += [f"{name} = {(not b)!r}", f"for lk{self.nvar} in range(3):", f"    {name} = not {name}"]
+        elif r == "loop0":
+            L += [f"{name} = {b!r}", f"for lk{self.nvar} in range({self._read(0)}):", f"    {name} = not {name}"]
+        elif r == "fn_called":
+            L += [f"def set{self.nvar}():", f"    global {name}", f"    {name} = {b!r}", f"{name} = {(not b)!r}", f"set{self.nvar}()"]
+        elif r == "fn_uncalled":
+            L += [f"def set{self.nvar}():", f"    global {name}", f"    {name} = {(not b)!r}", f"{name} = {b!r}"]
+        else:
+            raise ValueError(r)
+        return name
+
     def add(self, line: str) -> None:
         self.lines.append(line)
         if self.post:
